@@ -15,6 +15,7 @@ One output line per input line; see harness/cells_common.py for the producer and
   clearcell c       -> `for a in cell.agents: a.remove()` | observation dump
   conns c | nbhd c r ic | nbprop c | mask c r ic | nbagents c r ic      -> result
   connect c c2 key|- | disconnect c c2                                  -> result (`Cell.connect` / `disconnect`)
+  setcap c k|-      -> `space[c].capacity = k` (`-`: None) by hand | observation dump (the occupants stay; `full=` / `cap=` follow)
   coll <expr> cells|agents|len|same | has c | get c | randcell d... | randagent d...      -> result (`CellCollection` API)
       <expr> = <base>[+<filter>:<at_most>]...      base = all | empties | nb:<c>:<r>:<ic> | nbp:<c>
       filter = none|empty|occupied|full|notfull    at_most = inf | <int> | <num>/<den> (the float num/den)
@@ -96,7 +97,9 @@ def dump (sp : Space) (s : State) : String :=
   -- `cell.empty` off grids: a plain attribute that exists only once `add_agent` has run on the cell (`c:1` / `c:0`)
   let attr := if sp.isGrid then "na" else
     " ".intercalate (sp.cells.filterMap fun c => (s.flag c).map fun b => s!"{fmtCoord c}:{if b then 1 else 0}")
-  s!"ag={" ".intercalate ags} | occ={" ".intercalate occ} | empty={fmtCoords empty} | full={fmtCoords full} | layer={layer} | pempty={layer} | empties={fmtCoords (empties sp s)} | agents={" ".intercalate ((spaceAgents sp s).map toString)} | reg={" ".intercalate (s.registry.map toString)} | attr={attr}"
+  -- the capacity of every cell that has one (`c:k`), as `cell.capacity` shows it now
+  let caps := " ".intercalate (sp.cells.filterMap fun c => (sp.cap c).map fun k => s!"{fmtCoord c}:{k}")
+  s!"ag={" ".intercalate ags} | occ={" ".intercalate occ} | empty={fmtCoords empty} | full={fmtCoords full} | layer={layer} | pempty={layer} | empties={fmtCoords (empties sp s)} | agents={" ".intercalate ((spaceAgents sp s).map toString)} | reg={" ".intercalate (s.registry.map toString)} | attr={attr} | cap={caps}"
 
 def parseKind : String → Option AKind
   | "cell" => some .cell
@@ -323,6 +326,12 @@ def stepLine (d : DSt) (ws : List String) : DSt × String :=
       | some c, some c2 =>
         let (sp', r) := editSp sp (.disconnect c c2)
         ({ d with sp := some sp', caches := if r = .ok then d.caches.forget c else d.caches }, fmtRes r)
+      | _, _ => (d, "bad-op")
+    | ["setcap", c, k] =>
+      match parseCoord c, parseOpt String.toNat? k with
+      | some c, some k =>
+        let (sp', r) := editSp sp (.setCap c k)
+        ({ d with sp := some sp' }, fmtRes r ++ " | " ++ dump sp' d.st)
       | _, _ => (d, "bad-op")
     | ["conns", c] =>
       match parseCoord c with
